@@ -19,6 +19,8 @@ for p in sorted((root / "pynetdicom").rglob("*.py")):
     import hashlib
     src = p.read_text(encoding="utf-8")
     tree = ast.parse(src)
+    from sa.canon import canonicalise
+    canonicalise(tree)
     rec = {"__sha__": hashlib.sha256(src.encode()).hexdigest()}
     for q, fn in functions_of(tree):
         key, order = alpha(fn)
